@@ -74,6 +74,15 @@ class AbstractSimplePayloadDecoder(AbstractPayloadDecoder):
         if options.get('native'):
             return value
         elif asn1Spec is None:
+            if tagSet and tagSet[0].tagFormat != tag.tagFormatSimple:
+                # the value was read in constructed form; that is a property
+                # of this encoding, not of the type
+                tagSet = tag.TagSet(
+                    tagSet.baseTag,
+                    tag.Tag(tagSet[0].tagClass, tag.tagFormatSimple,
+                            tagSet[0].tagId),
+                    *tagSet.superTags[1:])
+
             return self.protoComponent.clone(value, tagSet=tagSet)
         elif value is noValue:
             return asn1Spec
